@@ -49,13 +49,16 @@ HOOK_FLOORS = {"quick": {"case_preserving_subclass_parsed_first": 10000,
 
 ALPHABET = "<>/%#()$aB1- \t é"
 BOUND = {"quick": 5, "thorough": 6}
-PREFIXES = ["%define ", "%import ", "%include ", "<a ", "</", "k ", "%"]
+PREFIXES = ["%define ", "%import ", "%include ", "<a ", "</", "k ", "%",
+            # any white space separates a directive from its argument
+            "%define\t", "%include\t", "%import\x0c", "%define\x0bn "]
 POOL_QUICK = ["", "k v", "<a>", "</a>", "<a b/>", "%define n v", "k $n",
               "</b>", "<A B>", "(k) v", "%include f", "# c"]
 POOL_QUICK = POOL_QUICK + ["</a b>", "%include $(ZCV_EMPTY)",
                            "%key_value k v", "%directive import p",
                            # a section name is not a value: never expanded
-                           "<a $n>", "<b ${n}/>"]
+                           "<a $n>", "<b ${n}/>",
+                           "%define\tn\tv", "%include\tf"]
 POOL_THOROUGH = POOL_QUICK + [
     "</a/>", "</a  >", "k $(ZCV_EMPTY)", "%import $(ZCV_EMPTY)",
     " ", "k", "K  v w ", "k (v)", "k(v", "<a  B >", "< a>", "<a b c>",
